@@ -81,6 +81,16 @@ PROPS["C06"] = {
 }
 PROPS["C08"] = dict(PROPS["C06"], lean_modules=["ShmVerif.Tie.C06", "ShmVerif.Props.C08"], design_ref="DESIGN.md §5 C08",
     claim="PARTIAL proof over the same model as C06. Proved: c08_reader_ops_preserve_payload (no sequence of reader operations, with the recycling it triggers, changes a payload byte of any slot), c08_release_preserves_payload, c08_fast_path_pins + c08_pinned_not_recycled (a slice that handed out a zero-copy view is parked, not recycled, when the reader moves past it), c08_release_returns (ReleasePreviousRead empties the parked list). Not yet proved: that writes by other holders cannot reach a parked slot (needs C09's global ownership partition); covered on the real code by a borrow monitor that re-compares every outstanding ReadBytes/Peek result after every later operation, including unrelated allocate-and-scribble.")
+PROPS["C18"] = {
+    "claim": "Proof. Lean model of the event connection with the kernel as an input. Proved for EVERY list of kernel results, consumer pacing and writer schedule: c18_read_window (onReadReady/maybeExpandReadBuffer/commitRead refine a byte queue: the callback sees exactly the unconsumed bytes followed by the new ones across growth, compaction, the 1 MiB early callback and the shrink rule; 0 <= start <= end <= len always), c18_write_exact and c18_writev_exact (the bytes handed to the kernel are a prefix of the data, each once and in order, success only when complete; iovec advance arithmetic and 256-slice batches included), c18_writer_mutex (at most one of the send loop / fast-path writers inside the connection), c18_sendloop_no_lost_wakeup. Tied by skeletons (tie 1) and lock-step runs of the real onReadReady/commitRead/write/writev under a syscall shim with scripted kernel results (tie 2) plus a concurrent writer stress on a real session.",
+    "note": "Trusted: Lean kernel; extractor; harness + syscall shim (the kernel is an input: scripted read/write results). The socket is a reliable FIFO and EPOLLOUT after EAGAIN is eventually delivered (assumed). Channel blocking of the send loop is modelled, not scheduled.",
+    "technique": "Lean 4 proof (window invariant by induction over kernel results; exactness of write/writev; mutual exclusion + no-lost-wake-up invariant of the writing flag) + skeleton tie + lock-step correspondence under a syscall shim + concurrent writer stress",
+    "design_ref": "DESIGN.md §5 C18",
+    "lean_modules": ["ShmVerif.Tie.C18", "ShmVerif.Props.C18"],
+    "harness": True, "level": "proof", "trusted_base": COMMON_TB,
+    "rule": "cases = read buffer of 4/8/16/64 bytes; 2-9 operations from: onReadReady with 1-6 scripted kernel reads (EAGAIN or up to 3x the buffer size) and consumer pacing (0, 1, 2, 5, cap, everything); write of 1-40 bytes and writev of 1-5 (sometimes 250-270) slices under scripted partial writes / EAGAIN / a kernel that stops; plus a concurrent writer stress (4 goroutines x 30 fast-path/slow-path sends) per case; non-trivial = buffer expanded, partial consumption, partial write, EAGAIN on write, stalled write, 256-iovec batch crossed; distinct by hash of op lines",
+    "assumptions": ["kernel results are inputs (scripted)", "reliable FIFO socket", "EPOLLOUT delivered after EAGAIN"],
+}
 PROPS["C02"] = dict(PROPS["C01"], lean_modules=["ShmVerif.Tie.C01", "ShmVerif.Props.C02"],
     claim="PARTIAL proof. Proved in Lean: c02_conservation_seq and c02_quiescent_full_seq (every sequential-atomic history: free count = chain length, free count + owned = capacity; when nothing is owned size = cap and the walk from head visits every slot exactly once and ends at tail), c02_failed_alloc_consumes_nothing (a failing pop restores every shared word), c02_aba_witness (kernel-checked: after the ABA schedule and full recycling size = cap = 4 but the walk visits 2 slots - known finding F1, replayed on the real code every run). Conservation for ABA-free concurrent interleavings is not proved; covered by scheduler correspondence + quiescence monitors (size, chain walk, count never exceeds capacity).",
     design_ref="DESIGN.md §5 C02")
